@@ -431,6 +431,229 @@ Proof.
   - cbn [forallb]. now rewrite E.
 Qed.
 
+(* ---- the four outcomes of a SAT call of the complete / stable solver *)
+Lemma sat_cred (m : assignment) id v :
+  models m C = true -> forallb (lit_true m) (e_assum e ++ [zlit v]) = true ->
+  In id ids -> tbl_var (e_a2v e) id = Some v ->
+  ext esem F (dyn_a2e (e_vars e) m) /\ NoDup (dyn_a2e (e_vars e) m) /\ incl (dyn_a2e (e_vars e) m) ids /\
+  In id (dyn_a2e (e_vars e) m) /\
+  (forall i, In i (args_where not_some_false (e_vars e) m) -> In i (dyn_a2e (e_vars e) m)).
+Proof.
+  intros Hm Ha Hid Hv. destruct (valid_sat_facts m (zlit v) Hm Ha) as (K1 & K2 & K3 & K4 & K5).
+  split; [exact K1|]. split; [exact K2|]. split; [exact K3|]. split.
+  - apply in_dyn_a2e. split; [exact Hid|]. rewrite (avar_some e id v Hv).
+    assert (Hp : 0 < v) by (rewrite <- (avar_some e id v Hv); apply avar_pos).
+    apply (lit_true_zlit m v Hp) in K5. unfold val_of. now rewrite K5.
+  - intros i Hi. apply in_args_where in Hi. destruct Hi as [Hi Hp]. apply in_dyn_a2e. split; [exact Hi|].
+    specialize (K4 i Hi). unfold val_of, not_some_false in *. destruct (value_of m (avar e i)) as [[|]|]; congruence.
+Qed.
+
+Lemma unsat_cred id v :
+  (forall w : val, vmodels w C = true -> forallb (vtrue w) (e_assum e ++ [zlit v]) = true -> False) ->
+  In id ids -> tbl_var (e_a2v e) id = Some v -> ~ cred esem F [id].
+Proof.
+  intros Hu Hid Hv (X & HX & a & [<-|[]] & Ha).
+  destruct (bridge_complete X HX) as (m & M1 & M2 & M3).
+  pose proof (valid_unsat_facts (zlit v) X Hu HX m M3 M1 M2) as Hf.
+  assert (Hp : 0 < v) by (rewrite <- (avar_some e id v Hv); apply avar_pos).
+  rewrite vtrue_zlit in Hf by exact Hp. rewrite <- (avar_some e id v Hv) in Hf.
+  rewrite (proj2 (M3 id Hid) Ha) in Hf. discriminate.
+Qed.
+
+Lemma sat_skep (m : assignment) id v :
+  models m C = true -> forallb (lit_true m) (e_assum e ++ [znlit v]) = true ->
+  In id ids -> tbl_var (e_a2v e) id = Some v ->
+  ext esem F (dyn_a2e (e_vars e) m) /\ NoDup (dyn_a2e (e_vars e) m) /\ incl (dyn_a2e (e_vars e) m) ids /\
+  ~ In id (dyn_a2e (e_vars e) m) /\
+  (forall i, In i (args_where not_some_true (e_vars e) m) -> ~ In i (dyn_a2e (e_vars e) m)).
+Proof.
+  intros Hm Ha Hid Hv. destruct (valid_sat_facts m (znlit v) Hm Ha) as (K1 & K2 & K3 & K4 & K5).
+  split; [exact K1|]. split; [exact K2|]. split; [exact K3|]. split.
+  - intros Hin. apply in_dyn_a2e in Hin. destruct Hin as [_ Hin]. rewrite (avar_some e id v Hv) in Hin.
+    apply lit_true_znlit in K5. unfold val_of in Hin. rewrite K5 in Hin. discriminate.
+  - intros i Hi Hin. apply in_args_where in Hi. destruct Hi as [Hi Hp]. apply in_dyn_a2e in Hin. destruct Hin as [_ Hin].
+    unfold val_of, not_some_true, is_some_true in *. destruct (value_of m (avar e i)) as [[|]|]; cbn in *; congruence.
+Qed.
+
+Lemma unsat_skep id v :
+  (forall w : val, vmodels w C = true -> forallb (vtrue w) (e_assum e ++ [znlit v]) = true -> False) ->
+  In id ids -> tbl_var (e_a2v e) id = Some v -> skep esem F [id].
+Proof.
+  intros Hu Hid Hv X HX. exists id. split; [left; reflexivity|].
+  destruct (in_dec Nat.eq_dec id X) as [Hin|Hn]; [exact Hin|exfalso].
+  destruct (bridge_complete X HX) as (m & M1 & M2 & M3).
+  pose proof (valid_unsat_facts (znlit v) X Hu HX m M3 M1 M2) as Hf.
+  rewrite vtrue_znlit in Hf. rewrite <- (avar_some e id v Hv) in Hf. apply negb_false_iff in Hf.
+  apply Hn. apply (M3 id Hid). exact Hf.
+Qed.
+
 End Bridge.
+
+(* ================================================================ Part C *)
+Notation dsolver := (dsolver L).
+Notation reach := (DynDefs.reach L leqb).
+Notation vreach := (DynFunDefs.vreach L leqb).
+Notation fresh := (DynDefs.fresh_fw L leqb).
+Notation run_ops := (Store.run_ops L leqb).
+Notation trailing := (DynDefs.trailing L).
+Notation pending := (DynDefs.pending L).
+Notation ev_apply := (DynDefs.ev_apply L leqb).
+
+Definition sem_of (k : dkind) : sem := match k with KSt => ST | _ => CO end.
+Definition dsem_of (k : dkind) : dsem := match k with KSt => DST | KPr => DPR | _ => DCO end.
+
+(* ---- the encoder of a solver of kind k works for the semantics of k *)
+Definition sem_buf (sm : dsem) (b : dbuf L) : Prop :=
+  match b_enc L b with XStd e => e_sem e = sm | XAtt _ => True end.
+
+Lemma update_encoding_sem sm (af : fw) b :
+  enc_inv L af b -> sem_buf sm b -> okm (update_encoding L leqb af b) (fun r => sem_buf sm (snd r)).
+Proof.
+  unfold enc_inv, sem_buf, update_encoding. destruct (b_enc L b) as [e|e].
+  - intros [Ht _] Hs. apply tables_ok_split in Ht.
+    eapply okm_bind; [apply fold_std_replay_ok; exact Ht|]. intros [[af' e'] upd] (K1 & K2 & K3). cbn [fst snd] in *.
+    eapply okm_bind.
+    + apply fold_update_attacks_to_ok. apply tabs_enable. exact K1.
+    + intros e'' (_ & _ & K6). apply okm_ret. cbn [snd buf_with b_enc enc_enable e_sem] in *. congruence.
+  - intros _ _. apply okm_bind_any. intros st. apply okm_bind_any. intros e'. apply okm_ret. cbn [snd buf_with b_enc]. exact I.
+Qed.
+
+Lemma sem_reach k s os : reach k s os -> std_kind k -> sem_buf (dsem_of k) (s_buf L s).
+Proof.
+  induction 1 as [ps ps' s Hn|s os o Hr IH|s os oracle thr fuel q cert l ps ps' s' a Hr IH Hq]; intros Hk.
+  - unfold dyn_new in Hn. destruct Hk as [-> |[-> | ->]];
+      apply bind_Done in Hn; destruct Hn as (u & ps1 & _ & Hn); apply Done_inj in Hn; destruct Hn as [<- _];
+      reflexivity.
+  - specialize (IH Hk). pose proof (reach_frame_inv L leqb _ _ _ Hr) as [Hkind _ _ _].
+    assert (Hnd : not_dummy (s_kind L s)) by (rewrite Hkind; destruct Hk as [-> |[-> | ->]]; exact I).
+    destruct (update_touches_no_encoder L leqb s o Hnd) as (_ & Hen & _).
+    unfold sem_buf in *. rewrite Hen. exact IH.
+  - specialize (IH Hk). assert (Hnd : not_dummy k) by (destruct Hk as [-> |[-> | ->]]; exact I).
+    pose proof (enc_inv_reach L leqb _ _ _ Hr Hnd) as Hinv.
+    pose proof (dyn_query_shape L leqb oracle thr fuel s q cert l _ (update_encoding_sem _ _ _ Hinv IH) _ _ _ Hq) as Hp.
+    unfold pushed in Hp. cbn [fst] in Hp. destruct Hp as [->|(af & buf & ev & Hc & ->)]; [exact IH|].
+    cbn [s_buf snd] in *. unfold sem_buf, buf_push, buf_with in *. cbn [b_enc]. exact Hc.
+Qed.
+
+Lemma esem_of_kind k e : k = KCo \/ k = KSt -> e_sem e = dsem_of k -> esem e = sem_of k.
+Proof. intros [-> | ->] E; unfold esem; rewrite E; reflexivity. Qed.
+
+(* ---- the state in which a SAT call is made *)
+Record ready (af : fw) (e : denc) (ps : Prog.st) : Prop := {
+  rd_tab : tables_ok L af e; rd_inv : Inv af; rd_vz : vz e; rd_cv : conv e;
+  rd_ci : clause_inv L af e (cls ps) (session_n_vars (sess ps)) }.
+
+Lemma query_ready oracle thr k (s : dsolver) ps os af buf ps1 :
+  vreach oracle thr k s ps os -> k = KCo \/ k = KSt ->
+  update_encoding L leqb (s_af L s) (s_buf L s) ps = Done (af, buf) ps1 ->
+  exists e, b_enc L buf = XStd e /\ ready af e ps1 /\ esem e = sem_of k /\
+    af = run_ops fresh os /\ b_buffer L buf = b_buffer L (s_buf L s) /\
+    b_next L buf = length (b_buffer L (s_buf L s)).
+Proof.
+  intros Hv Hk Hue. assert (Hsk : std_kind k) by (unfold std_kind; tauto).
+  assert (Hnd : not_dummy k) by (destruct Hk as [-> | ->]; exact I).
+  pose proof (vreach_reach L leqb _ _ _ _ _ _ Hv) as Hr.
+  pose proof (vreach_VI L leqb leqb_spec _ _ _ _ _ _ Hv Hk) as Hvi.
+  pose proof (std_kind_reach L leqb _ _ _ Hr Hsk) as Hstd.
+  destruct (b_enc L (s_buf L s)) as [e0|e0] eqn:Ee0; [|destruct Hstd].
+  destruct (reach_RS L leqb leqb_spec k s os ps e0 Hr Hsk Ee0 Hvi) as [Hrs Hu].
+  destruct (update_encoding_RS L leqb leqb_spec _ _ _ _ _ _ _ Ee0 Hrs Hu Hue) as (e & He & [Ht Hinv Hz Hbd (dv & atk & Hc)] & _).
+  exists e. split; [exact He|].
+  pose proof (enc_inv_reach L leqb _ _ _ Hr Hnd) as Hei. pose proof (conv_reach L leqb _ _ _ Hr Hnd) as Hcv.
+  pose proof (update_encoding_conv L leqb _ _ Hei Hcv _ _ _ Hue) as Hcv'. unfold conv_buf in Hcv'. cbn [snd] in Hcv'. rewrite He in Hcv'.
+  pose proof (update_encoding_sem _ _ _ Hei (sem_reach _ _ _ Hr Hsk) _ _ _ Hue) as Hs'. unfold sem_buf in Hs'. cbn [snd] in Hs'. rewrite He in Hs'.
+  destruct (update_encoding_spec L leqb _ _ _ _ _ Hue) as (E1 & E2 & E3 & _). cbn [fst snd] in E1, E2, E3.
+  pose proof (reach_frame_inv L leqb _ _ _ Hr) as [Hkind _ Hsy Hsp].
+  pose proof (proj2 (tables_ok_split L af e) Ht) as Ht'.
+  split; [|split; [apply esem_of_kind; assumption|split; [|auto]]].
+  - split; auto. exact (cinv_clause_inv L _ _ _ _ _ _ Hc Ht').
+  - rewrite E1. unfold DynDefs.synced in Hsy. unfold DynDefs.spec_fw in Hsp. rewrite Hkind in Hsy, Hsp.
+    destruct Hk as [-> | ->]; congruence.
+Qed.
+
+(* ---- cached entries *)
+(* an entry with a stored extension is sound for a framework when the extension is one of its
+   extensions (for the semantics of the solver), duplicate-free, made of live arguments, contains every
+   argument listed as accepted and none listed as refused *)
+Definition cache_ok (sm : sem) (af : fw) (ev : devent L) : Prop :=
+  match ev with
+  | DCred _ acc refused (Some X) | DSkep _ acc refused (Some X) =>
+      ext sm (af_of af) X /\ NoDup X /\ incl X (live_ids L af) /\
+      (forall l id, lmem L leqb l acc = true -> get_argument af l = Some id -> In id X) /\
+      (forall l id, lmem L leqb l refused = true -> get_argument af l = Some id -> ~ In id X)
+  | _ => True
+  end.
+
+Lemma label_of_get (af : fw) i l id : Inv af -> label_of L af i = Some l -> get_argument af l = Some id -> i = id.
+Proof.
+  intros Hinv Hl Hg. unfold label_of in Hl. destruct (nth i (slots (ls af)) None) as [[i' l']|] eqn:Ei; [|discriminate].
+  injection Hl as ->. pose proof (find_label_Some L leqb leqb_spec af l id Hinv Hg) as Hid.
+  exact (label_slot_unique L _ _ _ _ _ (inv_lab L af Hinv) Ei Hid eq_refl).
+Qed.
+Lemma labels_sound (af : fw) ids ls l id :
+  Inv af -> labels_of L af ids = Some ls -> lmem L leqb l ls = true -> get_argument af l = Some id -> In id ids.
+Proof.
+  intros Hinv Hls Hm Hg. apply (lmem_In L leqb leqb_spec) in Hm.
+  destruct (labels_of_In L af ids ls l Hls Hm) as (i & Hi & Hl).
+  rewrite <- (label_of_get af i l id Hinv Hl Hg). exact Hi.
+Qed.
+
+Lemma valid_answer oracle ps a : valid_oracle oracle ->
+  match answer_of oracle ps a with
+  | Sat m => models m (cls ps) = true /\ forallb (lit_true m) a = true
+  | Unsat => forall v : val, vmodels v (cls ps) = true -> forallb (vtrue v) a = true -> False
+  | Unknown => True
+  end.
+Proof. intros Hv. unfold answer_of. fold (cls ps). apply Hv. Qed.
+
+Lemma dc_answer oracle (af : fw) e ps l id v :
+  valid_oracle oracle -> ready af e ps -> get_argument af l = Some id -> tbl_var (e_a2v e) id = Some v ->
+  match answer_of oracle ps (e_assum e ++ [zlit v]) with
+  | Sat m => ext (esem e) (af_of af) (dyn_a2e (e_vars e) m) /\ NoDup (dyn_a2e (e_vars e) m) /\
+             incl (dyn_a2e (e_vars e) m) (live_ids L af) /\ In id (dyn_a2e (e_vars e) m) /\
+             forall acc, labels_of L af (args_where not_some_false (e_vars e) m) = Some acc ->
+                         cache_ok (esem e) af (DCred L acc [] (Some (dyn_a2e (e_vars e) m)))
+  | Unsat => ~ cred (esem e) (af_of af) [id]
+  | Unknown => True
+  end.
+Proof.
+  intros Hvalid [Ht Hinv Hz Hcv (dv & atk & H1 & H2 & H3 & H4 & H5)] Hg Hv.
+  assert (Hid : In id (live_ids L af)).
+  { apply (has_live_ids L af id Hinv). eapply (get_argument_live L leqb leqb_spec); eassumption. }
+  pose proof (valid_answer oracle ps (e_assum e ++ [zlit v]) Hvalid) as Ha.
+  destruct (answer_of oracle ps (e_assum e ++ [zlit v])) as [m| |]; [| |exact I].
+  - destruct Ha as [Hm Hl].
+    destruct (sat_cred af e (cls ps) atk Ht Hinv Hz H3 H4 Hcv m id v Hm Hl Hid Hv) as (K1 & K2 & K3 & K4 & K5).
+    split; [exact K1|]. split; [exact K2|]. split; [exact K3|]. split; [exact K4|].
+    intros acc Hacc. cbn [cache_ok]. split; [exact K1|]. split; [exact K2|]. split; [exact K3|]. split.
+    + intros l' id' Hm' Hg'. apply K5. eapply labels_sound; eassumption.
+    + intros l' id' Hm'. discriminate Hm'.
+  - exact (unsat_cred af e (cls ps) dv atk Ht Hinv Hz H2 H3 H4 H5 id v Ha Hid Hv).
+Qed.
+
+Lemma ds_answer oracle (af : fw) e ps l id v :
+  valid_oracle oracle -> ready af e ps -> get_argument af l = Some id -> tbl_var (e_a2v e) id = Some v ->
+  match answer_of oracle ps (e_assum e ++ [znlit v]) with
+  | Sat m => ext (esem e) (af_of af) (dyn_a2e (e_vars e) m) /\ NoDup (dyn_a2e (e_vars e) m) /\
+             incl (dyn_a2e (e_vars e) m) (live_ids L af) /\ ~ In id (dyn_a2e (e_vars e) m) /\
+             forall refused, labels_of L af (args_where not_some_true (e_vars e) m) = Some refused ->
+                             cache_ok (esem e) af (DSkep L [] refused (Some (dyn_a2e (e_vars e) m)))
+  | Unsat => skep (esem e) (af_of af) [id]
+  | Unknown => True
+  end.
+Proof.
+  intros Hvalid [Ht Hinv Hz Hcv (dv & atk & H1 & H2 & H3 & H4 & H5)] Hg Hv.
+  assert (Hid : In id (live_ids L af)).
+  { apply (has_live_ids L af id Hinv). eapply (get_argument_live L leqb leqb_spec); eassumption. }
+  pose proof (valid_answer oracle ps (e_assum e ++ [znlit v]) Hvalid) as Ha.
+  destruct (answer_of oracle ps (e_assum e ++ [znlit v])) as [m| |]; [| |exact I].
+  - destruct Ha as [Hm Hl].
+    destruct (sat_skep af e (cls ps) atk Ht Hinv Hz H3 H4 Hcv m id v Hm Hl Hid Hv) as (K1 & K2 & K3 & K4 & K5).
+    split; [exact K1|]. split; [exact K2|]. split; [exact K3|]. split; [exact K4|].
+    intros refused Href. cbn [cache_ok]. split; [exact K1|]. split; [exact K2|]. split; [exact K3|]. split.
+    + intros l' id' Hm'. discriminate Hm'.
+    + intros l' id' Hm' Hg'. apply K5. eapply labels_sound; eassumption.
+  - exact (unsat_skep af e (cls ps) dv atk Ht Hinv Hz H2 H3 H4 H5 id v Ha Hid Hv).
+Qed.
 
 End DynFun.
